@@ -2,16 +2,35 @@
 
 proof side : lean/Heph/Props/C12.lean — for the MODELLED languages (registry harness/trans_models.py; the
              translator models are those of C11) theorems for all programs: `doc_tags`, `doc_inventory`,
-             `doc_pieces_partial` (+ counterexample), `annot_iff_*`, `literals_ops_present`, `balanced_partial`.
+             `doc_pieces_partial` (+ counterexample), `annot_iff_*`, `annot_var/ret/targs_text` (the printed annotation
+             is the NAME of the carried type), `literals_ops_present`, `balanced_partial`.
 tie to code: real pipeline runs (stages gen, erase, overwrite), every program translated by the REAL translators
-             of all four languages (fresh translator, package "src.pkg").  Per (program, stage):
+             of all four languages, package "src.pkg": by a FRESH translator object per text AND (harness/c12_plugin.py,
+             inside the worker) by ONE object per language kept across gen -> erase -> overwrite, as
+             hephaestus.gen_program uses it (TypeErasure / TypeOverwriting mutate the program and shared type
+             objects in place); a reused object's text that differs from the fresh one's is judged by S1-S3 too.
+             Extra TypeOverwriting rounds (c12_plugin: pickle copy of the gen- / erase-stage program, translate,
+             mutate, translate again with the same objects; the site is TypeOverwriting's own random choice,
+             nothing is steered) are judged in the worker by S1 + S3; a stream of small programs (max_depth 3) makes
+             the number of overwritten sites useful within the budget.  Evidence: `overwrite_sites` (which
+             declaration was overwritten: var_type / ret_type / new_type_argument / call_type_argument, per
+             source), `overwrite_sites_compared` (per language), `type_names_compared`.  Per (program, stage):
                specification side, from the export of the IR alone (harness/c12_scan.py, Python):
                    INV  = inventory(export)       declarations / annotations the program carries, print order
                    LIT  = literals(export)        literals and operators, print order
                the code's answers judged against it directly, for ALL FOUR languages:
-               (S1) scan(lang, real text) == expected(lang, INV): a token-level recount of the declarations in the
-                    real text (per language the tags in c12_scan.SCANNED; Kotlin/Scala in order with modifiers and
-                    "annotation printed iff the program carries it"; Java/Groovy classes and fields only)
+               (S1) scan(lang, real text) == expected(lang, INV, export): a token-level recount of the declarations in
+                    the real text with the NAMES of the printed types (per language the tags in c12_scan.SCANNED).
+                    The expected type text is `c12_scan.type_text`, a renderer written from the languages' naming
+                    rules and computed from the export alone (boxing, `? extends`/`out`/`? <:`, arrays; exact on the
+                    unchanged tree).  Kotlin/Scala: in order, with modifiers, "annotation printed iff the program
+                    carries it" and its text = the carried type (variables, return types, parameters, fields,
+                    bounds + variance, super clauses, explicit type arguments of calls and of `new`).  Java/Groovy:
+                    multiset by (tag, name): classes, type parameters + bounds, super clauses, fields, methods with
+                    return type, parameters (methods, lambdas, closures), variables incl. nested functions
+                    (`FunctionN<…> f = (a) -> …` / `def|Closure<T> f = { … }`), `new` with type arguments or `<>`;
+                    IF the program carries a declared type the printed type IS it; where it carries none, Java (and
+                    Groovy for globals / methods) prints a type anyway (recorded findings): any type accepted, counted
                (S2) the string and char literals of the real text are exactly those of LIT (Kotlin/Scala: in order)
                (S3) () [] {} are balanced in the real text outside string / char literals
                and for every language with a Lean model (correspondence):
